@@ -585,6 +585,35 @@ impl Engine {
     }
 
     /// Ends the case: everything runs free, the cache is shut down and dropped, all threads are joined.
+    /// Terminal probes (the case ends afterwards): a thread that the scheduler has been holding in front of a blocking
+    /// channel operation is let into the REAL operation; it must stay there.
+    /// Returns the event text and what was observed ("blocked" / "moved:<where>").
+    pub fn terminal_probe(&mut self) -> Option<(String, String)> {
+        if self.hung { return None; }
+        let worker_alive = Self::alive("worker");
+        let queue_len = self.cache.verif_command_queue_len();
+        for client in 0..self.cfg.clients {
+            let role = format!("c{}", client);
+            let at = verif::view(&role).and_then(|view| view.parked_at);
+            if self.parked[client] && at == Some("cmd.send") && worker_alive && queue_len >= self.cfg.cmdcap {
+                return Some((format!("probe-send {}", client), Self::observe_blocked(&role)));
+            }
+        }
+        let worker_at = verif::view("worker").and_then(|view| view.parked_at);
+        if worker_alive && queue_len == 0 && (worker_at == Some("worker.recv") || worker_at == Some("worker.drain")) {
+            return Some(("probe-recv".to_string(), Self::observe_blocked("worker")));
+        }
+        None
+    }
+
+    fn observe_blocked(role: &str) -> String {
+        let seq = match verif::grant(role) { Some(seq) => seq, None => return "not-parked".to_string() };
+        match verif::wait_settled(role, seq, Duration::from_millis(40)) {
+            None => "blocked".to_string(),
+            Some(view) => if view.finished { "moved".to_string() } else { "moved".to_string() },
+        }
+    }
+
     pub fn finish(self) -> Result<(), String> {
         for slot in &self.slots { slot.exit.store(true, Ordering::SeqCst); }
         verif::release_all();
